@@ -268,30 +268,38 @@ def build_classes(case, H):
     return classes
 
 
-def run_python(case, H, ids, rank_override=None):
-    """Run the real solver; return the flat encoding."""
+class Exec(object):
+    """One execution of the real solver on a generated case."""
+    pass
+
+
+def exec_case(case, H, rank_override=None, request=None, inputs=None, prompt='case', fields=None):
     solver_mod = H['solver']
     cfg = configparser.ConfigParser()
-    for k, val in case['inputs'].items():
+    for k, val in (case['inputs'] if inputs is None else inputs).items():
         sec, opt = k.split('.')
         if not cfg.has_section(sec):
             cfg.add_section(sec)
         cfg.set(sec, opt, val)
     store = H['inputs'].InputStore(cfg)
-    trace = []
-    prompt_map = case['prompt']
+    R = Exec()
+    R.trace = []          # ('attempt', name) | ('prompt', input, answered, [needed_by], absent_before, readers_ok)
+    R.unimpl_raised = []
+    prompt_map = case['prompt'] if prompt == 'case' else prompt
+    R.store = store
 
-    def prompt(missing, needed_by):
-        nb = [ids[('line', f.name())] for f in needed_by]
+    def prompt_fn(missing, needed_by):
+        nb = [f.name() for f in needed_by]
+        absent = not store.provides(missing)
         if missing.name() in prompt_map:
-            trace.append([2, ids[('input', missing.name())], 1, len(nb)] + nb)
+            R.trace.append(('prompt', missing.name(), 1, nb, absent))
             return (prompt_map[missing.name()], True)
-        trace.append([2, ids[('input', missing.name())], 0, len(nb)] + nb)
+        R.trace.append(('prompt', missing.name(), 0, nb, absent))
         return (None, False)
 
     class LoggingSolver(solver_mod.Solver):
         def _attempt_field(self, field):
-            trace.append([1, ids[('line', field.name())]])
+            R.trace.append(('attempt', field.name()))
             return super()._attempt_field(field)
 
     old_sort = solver_mod.sort_keys
@@ -303,28 +311,43 @@ def run_python(case, H, ids, rank_override=None):
         solver_mod.sort_keys = sk
     old_limit = sys.getrecursionlimit()
     sys.setrecursionlimit(400)
+    R.exc = None
+    R.ok = None
     try:
-        s = LoggingSolver(store, build_classes(case, H), prompt=prompt if prompt_map is not None else None)
+        s = LoggingSolver(store, build_classes(case, H), prompt=prompt_fn if prompt_map is not None else None)
+        R.solver = s
         try:
-            ok = s.solve(list(case['request']), field_names=list(case['fields']))
-        except NotImplementedError:
-            return [0, 1, 0] + enc_inp(store, ids, H)
-        except AssertionError:
-            return [0, 2, 0] + enc_inp(store, ids, H)
-        except RecursionError:
-            return [0, 3, 0] + enc_inp(store, ids, H)
-        except H['inputs'].InvalidInput as e:
-            return [0, 4, ids[('input', e.input_name)]] + enc_inp(store, ids, H)
-        except KeyError:
-            return [0, 5, 0] + enc_inp(store, ids, H)
-        except VerifCrash as e:
-            return [0, 6, e.code] + enc_inp(store, ids, H)
-        except TypeError:
-            return [0, 6, 99] + enc_inp(store, ids, H)
+            R.ok = s.solve(list(case['request'] if request is None else request),
+                           field_names=list(case['fields'] if fields is None else fields))
+        except BaseException as e:  # noqa
+            R.exc = e
     finally:
         solver_mod.sort_keys = old_sort
         sys.setrecursionlimit(old_limit)
-    out = [1, 1 if ok else 0]
+    return R
+
+
+def encode(R, ids, H):
+    store = R.store
+    e = R.exc
+    if e is not None:
+        if isinstance(e, NotImplementedError):
+            return [0, 1, 0] + enc_inp(store, ids, H)
+        if isinstance(e, AssertionError):
+            return [0, 2, 0] + enc_inp(store, ids, H)
+        if isinstance(e, RecursionError):
+            return [0, 3, 0] + enc_inp(store, ids, H)
+        if isinstance(e, H['inputs'].InvalidInput):
+            return [0, 4, ids[('input', e.input_name)]] + enc_inp(store, ids, H)
+        if isinstance(e, KeyError):
+            return [0, 5, 0] + enc_inp(store, ids, H)
+        if isinstance(e, VerifCrash):
+            return [0, 6, e.code] + enc_inp(store, ids, H)
+        if isinstance(e, TypeError):
+            return [0, 6, 99] + enc_inp(store, ids, H)
+        return ['EXC', repr(e)]
+    s = R.solver
+    out = [1, 1 if R.ok else 0]
     vals = list(s._v.values.items())
     out.append(len(vals))
     for k, v in vals:
@@ -337,10 +360,17 @@ def run_python(case, H, ids, rank_override=None):
             out += [ids[(kind, d)], len(ws)] + [ids[('line', w.name())] for w in ws]
     out += [len(s.forms)] + [ids[('form', n)] for n in s.forms]
     out += enc_inp(store, ids, H)
-    out.append(len(trace))
-    for ev in trace:
-        out += ev
+    out.append(len(R.trace))
+    for ev in R.trace:
+        if ev[0] == 'attempt':
+            out += [1, ids[('line', ev[1])]]
+        else:
+            out += [2, ids[('input', ev[1])], ev[2], len(ev[3])] + [ids[('line', n)] for n in ev[3]]
     return out
+
+
+def run_python(case, H, ids, rank_override=None):
+    return encode(exec_case(case, H, rank_override=rank_override), ids, H)
 
 
 def enc_inp(store, ids, H):
